@@ -23,6 +23,8 @@ RULES13 = ['InverseBinaryRule', 'BlockRowBlockDiagonalRule', 'BlockDiagonalBlock
            'LinearPolarizerHWPRule']
 
 PLAN = {
+    'C14': _p(shards={'x32': 12, 'x64': 4}, quick=110, thorough=2500,
+              exhaustive_scope='layer 1 only: every string of the stated grammar over {h,i,j,k} that numpy accepts'),
     'C13': _p(shards={'x32': 10, 'x64': 6}, quick=150, thorough=4000,
               exhaustive_scope='the enumerated box of the sweep (see coverage.extra.sweep_box), not the Hypothesis part'),
     'C11': _p(shards={'x32': 10, 'x64': 6}, quick=150, thorough=4000,
